@@ -438,3 +438,33 @@ def drift_report(prop, anchors):
     rec = json.load(open(p)).get(prop, {}) if os.path.exists(p) else {}
     changed = sorted(k for k in cur if rec.get(k) not in (None, cur[k]))
     return cur, changed
+
+
+def file_hashes():
+    """sha1 of the ast dump of every module under src/skmatter: {'src/skmatter/x.py': hash}."""
+    import ast
+    out = {}
+    root = os.path.join(REPO, "src", "skmatter")
+    for d, _, fs in os.walk(root):
+        if "datasets" in d:
+            continue
+        for f in fs:
+            if f.endswith(".py"):
+                path = os.path.join(d, f)
+                rel = os.path.relpath(path, REPO)
+                try:
+                    out[rel] = hashlib.sha1(ast.dump(ast.parse(open(path).read())).encode()).hexdigest()[:12]
+                except Exception as e:  # noqa
+                    out[rel] = "unparsable: %s" % e
+    return out
+
+
+def changed_files():
+    """Source files of the library whose AST differs from the state the models were last validated
+    against (harness/anchor_hashes.json, key "_files").  Comments/formatting do not count."""
+    p = os.path.join(VERIF, "harness", "anchor_hashes.json")
+    rec = json.load(open(p)).get("_files", {}) if os.path.exists(p) else {}
+    if not rec:
+        return []
+    cur = file_hashes()
+    return sorted(k for k in set(cur) | set(rec) if cur.get(k) != rec.get(k))
